@@ -488,6 +488,7 @@ def run_check(prop_id, tier, workers=16, confirm=True, write_evidence=True):
             'distinct_outcomes': len(tot.outcomes),
             'shards_total': len(shards), 'shards_completed': done_shards,
             'wall_cap_s': cap or None, 'cap_hit': capped,
+            'schedule': f'{len(shards)} shards dealt to {n_lanes} lanes (lane j = shards j, j+{n_lanes}, ...), one freshly forked process per lane',
             'bounds': desc.get('bounds', {}), 'alphabets': desc.get('alphabets', {}),
             'counters': dict(sorted(tot.tags.items())),
             'violations_by_witness_key': dict(tot.viol_keys),
